@@ -181,7 +181,7 @@ def run(ctx: Ctx):
     # 2. spec -> code: tours over the exported transition system ----------------------------------
     jobs = []
     for cfg in (["MCX_q", "MCX_q3"] if q else ["MCX_q", "MCX_q3", "MCX_t", "MCX_t3"]):
-        for p, made in export_tours(ctx, cfg, rng, maxlen=30 if q else 40):
+        for p, made in export_tours(ctx, cfg, rng, maxlen=30 if q else 100):
             jobs += _three_ways(p, made)
     ctx.notes["tour_traces"] = len(jobs)
     # 3. code -> spec: seeded random schedules -----------------------------------------------------
